@@ -1,0 +1,55 @@
+//go:build verif
+
+// Contracts for the contract-based verification in /verif (comment-only file).
+
+package drkey
+
+//@ import cipher "crypto/cipher"
+//@ import slayers "github.com/scionproto/scion/pkg/slayers"
+//@ import addr "github.com/scionproto/scion/pkg/addr"
+
+//@ # ---- C39: key derivation = AES-CBC-MAC (zero IV) of a typed, padded input under the parent key.
+//@ # cbcOut(khi, klo, in, k): byte k of the CBC encryption of the byte string `in` under the 128-bit key (khi, klo)
+//@ # - uninterpreted (A7). modeKeyHi/Lo(m): the key a block mode was created with. The documented MAC is the LAST block.
+//@ spec func cbcOut(khi uint64, klo uint64, in []byte, k int) uint8 uninterpreted
+//@ spec func modeKeyHi(m cipher.BlockMode) uint64 uninterpreted
+//@ spec func modeKeyLo(m cipher.BlockMode) uint64 uninterpreted
+//@ macro be64(b, o) = (uint64(b[o])<<56 | uint64(b[o+1])<<48 | uint64(b[o+2])<<40 | uint64(b[o+3])<<32 | uint64(b[o+4])<<24 | uint64(b[o+5])<<16 | uint64(b[o+6])<<8 | uint64(b[o+7]))
+//@ iface cipher.BlockMode.CryptBlocks
+//@   requires len(dst) >= len(src)
+//@   modifies arr(dst)
+//@   ensures forall k int :: 0 <= k && k < len(src) ==> dst[k] == cbcOut(modeKeyHi(self), modeKeyLo(self), old(src), k)
+
+//@ # assumed (crypto/aes, crypto/cipher): a CBC encrypter with zero IV for exactly this key
+//@ func initAESCBC
+//@   trusted
+//@   modifies nothing
+//@   ensures result1 == nil ==> result0 != nil && len(key) >= 16 && modeKeyHi(result0) == be64(key, 0) && modeKeyLo(result0) == be64(key, 8)
+
+//@ func cbcMac
+//@   props C39
+//@   requires block != nil && len(b) >= 16
+//@   modifies arr(b)
+//@   ensures len(result) == 16
+//@   ensures forall j int :: 0 <= j && j < 16 ==> result[j] == cbcOut(modeKeyHi(block), modeKeyLo(block), old(b), len(b) - 16 + j)
+
+//@ # the derived key is the last CBC block of the input under the parent key, whatever the input length
+//@ func DeriveKey
+//@   props C39
+//@   requires len(input) >= 16
+//@   modifies arr(input)
+//@   ensures result1 == nil ==> forall j int :: 0 <= j && j < 16 ==> result0[j] == cbcOut(be64(upperLevelKey, 0), be64(upperLevelKey, 8), old(input), len(input) - 16 + j)
+
+//@ # host-host input: [HostHost | host address type (4 bits) | packed address | zero padding to a block multiple]
+//@ func SerializeHostHostInput
+//@   props C39
+//@   requires len(input) >= 32
+//@   # the exported variable ZeroBlock still holds zeros
+//@   requires (ZeroBlock[0] == 0 && ZeroBlock[1] == 0 && ZeroBlock[2] == 0 && ZeroBlock[3] == 0 && ZeroBlock[4] == 0 && ZeroBlock[5] == 0 && ZeroBlock[6] == 0 && ZeroBlock[7] == 0 && ZeroBlock[8] == 0 && ZeroBlock[9] == 0 && ZeroBlock[10] == 0 && ZeroBlock[11] == 0 && ZeroBlock[12] == 0 && ZeroBlock[13] == 0 && ZeroBlock[14] == 0 && ZeroBlock[15] == 0)
+//@   modifies input[:]
+//@   let l = slayers.packedLen(host)
+//@   ensures (result1 == nil) == slayers.packedOK(host)
+//@   ensures result1 == nil ==> result0 == ite(l == 16, 32, 16)
+//@   ensures result1 == nil ==> input[0] == uint8(HostHost) && input[1] == uint8(slayers.packedType(host)) & 0xF
+//@   ensures result1 == nil ==> forall j int :: 0 <= j && j < l ==> input[2+j] == slayers.packedByte(host, j)
+//@   ensures result1 == nil ==> forall k int :: 2 + l <= k && k < result0 ==> input[k] == 0
